@@ -77,50 +77,6 @@ pub fn implementation_rules() -> Vec<Box<dyn ImplementationRule>> {
 
 // Helper functions
 
-/// Swaps left/right in a join condition.
-fn swap_join_condition(cond: &BoundExpression) -> BoundExpression {
-    match cond {
-        BoundExpression::BinaryOp {
-            left,
-            op,
-            right,
-            result_type,
-        } => {
-            let swapped_op = match op {
-                BinaryOperator::Eq => BinaryOperator::Eq,
-                BinaryOperator::Lt => BinaryOperator::Gt,
-                BinaryOperator::Gt => BinaryOperator::Lt,
-                BinaryOperator::Le => BinaryOperator::Ge,
-                BinaryOperator::Ge => BinaryOperator::Le,
-                BinaryOperator::And => {
-                    return BoundExpression::BinaryOp {
-                        left: Box::new(swap_join_condition(left)),
-                        op: BinaryOperator::And,
-                        right: Box::new(swap_join_condition(right)),
-                        result_type: *result_type,
-                    };
-                }
-                BinaryOperator::Or => {
-                    return BoundExpression::BinaryOp {
-                        left: Box::new(swap_join_condition(left)),
-                        op: BinaryOperator::Or,
-                        right: Box::new(swap_join_condition(right)),
-                        result_type: *result_type,
-                    };
-                }
-                _ => *op,
-            };
-            BoundExpression::BinaryOp {
-                left: right.clone(),
-                op: swapped_op,
-                right: left.clone(),
-                result_type: *result_type,
-            }
-        }
-        _ => cond.clone(),
-    }
-}
-
 /// Shifts column indices by offset.
 fn shift_columns(expr: &BoundExpression, offset: i32) -> Option<BoundExpression> {
     let shift_all = |items: &[BoundExpression]| -> Option<Vec<BoundExpression>> {
@@ -513,32 +469,68 @@ impl TransformationRule for JoinCommutativityRule {
     fn matches(&self, expr: &LogicalExpr, _memo: &Memo) -> bool {
         matches!(
             &expr.op,
-            LogicalOperator::Join(j) if j.join_type == JoinType::Inner || j.join_type == JoinType::Cross
+            LogicalOperator::Join(j) if !j.commuted && (j.join_type == JoinType::Inner || j.join_type == JoinType::Cross)
         )
     }
 
-    fn apply(&self, expr: &LogicalExpr, _memo: &mut Memo) -> PlannerResult<Vec<LogicalExpr>> {
+    fn apply(&self, expr: &LogicalExpr, memo: &mut Memo) -> PlannerResult<Vec<LogicalExpr>> {
         let LogicalOperator::Join(join) = &expr.op else {
             return Ok(vec![]);
         };
-        if expr.children.len() != 2 {
+        if expr.children.len() != 2 || join.commuted {
             return Ok(vec![]);
         }
 
-        let swapped_cond = join.condition.as_ref().map(swap_join_condition);
-        let new_join = JoinOp::new(
+        // The swapped join produces right ++ left: column i of this join is column to_swapped[i] of the swapped one.
+        let left_cols = join.left_schema.num_columns();
+        let right_cols = join.right_schema.num_columns();
+        let to_swapped: Vec<usize> = (0..left_cols + right_cols)
+            .map(|i| if i < left_cols { i + right_cols } else { i - left_cols })
+            .collect();
+
+        let swapped_cond = join
+            .condition
+            .as_ref()
+            .map(|c| rewrite_with_mapping(c, &to_swapped));
+        let mut new_join = JoinOp::new(
             join.join_type,
             swapped_cond,
             join.right_schema.clone(),
             join.left_schema.clone(),
         );
+        new_join.commuted = true;
+        let swapped_schema = new_join.output_schema.clone();
 
-        Ok(vec![
+        let mut swapped_props = expr.properties.clone();
+        swapped_props.schema = swapped_schema.clone();
+        swapped_props.unique_columns = None;
+        swapped_props.not_null_columns = expr
+            .properties
+            .not_null_columns
+            .iter()
+            .filter_map(|c| to_swapped.get(*c).copied())
+            .collect();
+        let swapped_group = memo.insert_logical_expr(
             LogicalExpr::new(
                 LogicalOperator::Join(new_join),
                 vec![expr.children[1], expr.children[0]],
             )
-            .with_properties(expr.properties.clone()),
+            .with_properties(swapped_props),
+        );
+
+        // Everything above this group addresses columns by position: put them back in the original order.
+        let expressions = to_swapped
+            .iter()
+            .map(|&idx| ProjectExpr {
+                expr: create_column_ref(idx, &swapped_schema),
+                alias: None,
+            })
+            .collect();
+        let project = ProjectOp::new(expressions, swapped_schema, join.output_schema.clone());
+
+        Ok(vec![
+            LogicalExpr::new(LogicalOperator::Project(project), vec![swapped_group])
+                .with_properties(expr.properties.clone()),
         ])
     }
 }
